@@ -37,6 +37,13 @@ Proof. exact to_vec_bits. Qed.
 Theorem C07_bitfield_roundtrip : forall bits, to_vec (from_vec bits) (len bits) = Some bits.
 Proof. exact to_vec_from_vec. Qed.
 
+(* hence two different sets of owned pieces (same piece count) never share a bitfield *)
+Theorem C07_bitfield_injective : forall a b, length a = length b -> from_vec a = from_vec b -> a = b.
+Proof.
+  intros a b L E. pose proof (C07_bitfield_roundtrip a) as A. pose proof (C07_bitfield_roundtrip b) as B.
+  unfold len in *. rewrite E, L in A. rewrite A in B. injection B as ->. reflexivity.
+Qed.
+
 (* statements pinned *)
 Check C07_layout : forall m, FieldsOk m -> Bep3 m (encode_msg m).
 Check C07_roundtrip : forall m rest, FieldsOk m ->
@@ -57,3 +64,4 @@ Print Assumptions C07_bitfield_unpack.
 Print Assumptions C07_bitfield_roundtrip.
 Print Assumptions C07_prefix_free.
 Print Assumptions C07_stream_injective.
+Print Assumptions C07_bitfield_injective.
